@@ -124,7 +124,7 @@ PROPS = {
         ],
     },
     "C02": {
-        "units": ["verify_rel", "verify", "transcripts"],
+        "units": ["verify_rel", "verify", "transcripts", "lemmas"],
         "design_ref": "DESIGN.md section 7, C02",
         "technique": "contract-based deductive verification (Verus) of the real verify(): loop invariants pin every scalar of the final multiscalar product to a specification function (closed forms for d and s, reference recurrences for the sums), accumulated over the batch; postcondition 'Ok only if the specified residual is the identity'",
         "claim": "verify() is proved, for every batch, configuration, capacity mix and parsed proof, to return Ok in a verifying mode only if batch_residual(...) == identity, where "
@@ -137,7 +137,7 @@ PROPS = {
                  "is knowledge soundness under discrete log and is not decidable here.",
         "assumptions": [
             "curve25519-dalek precomputed vartime_mixed_multiscalar_mul returns msm(static, table) + msm(dynamic) and asserts the two length equalities; Scalar::batch_invert returns element-wise inverses and the product of inverses",
-            "d_sum and y_sum are pinned at the level of their reference recurrences (doubling trick, y(y^nm - 1)/(y - 1)); the lemmas equating them with sum_j z^2j and sum_i y^i are pure algebra and listed only when discharged; s_0 is the computed product of inverses times y(y-1) (equal to prod e_j^-1 when y != 1, probability 1 - 2^-252)",
+            "reference recurrences are lifted to the published closed forms by pure lemmas (unit lemmas): the doubling trick yields sum_{j=1..2^t} z^2j (lemma_dsum_pair - this is where 'wrong only for aggregation >= 8' would show), y_sum is sum_{i=1..nm} y^i when y != 1 (lemma_ysum), the running products are a*b^q (lemma_mulpow); s_0 is kept as computed (product of inverses of e_1..e_r, y, y-1 times y(y-1)), equal to prod e_j^-1 when y != 1 (probability 1 - 2^-252) - that last identity is not discharged",
             "that the precomputation table of a RangeParameters object consists of its G_i/H_i generators interleaved is part of BulletproofGens::new's contract (unit gens)",
             "the relation implies value - promise in [0, 2^bits) only under the discrete-log assumption (paper); not a deductive fact",
         ],
